@@ -439,43 +439,7 @@ def run(ctx: Ctx):
 
     # ---- R01.g time aliases -------------------------------------------------------------------------------
     ctx.rule("R01.g", "`t` and `time` both denote the one time symbol, which is the formal argument t of the generated functions", floor=3)
-    from sa import av as _avg
-
-    from . import odemodel as _om
-
-    mo = sm.func("ode.py", "make_ode")
-    mv_, _e = _om.construction(ctx, "make_ode")
-    rc = _om.resolve_call(mv_)
-    if rc is None:
-        ctx.undecided("R01.g", mo.key("aliases"), "make_ode is not understood", mo.where())
-    else:
-        passed = dict(rc[3]).get("symbols", rc[2][1] if len(rc[2]) > 1 else None)
-        _base, extra = _om.setitem_chain(passed) if passed is not None else (None, {})
-        tsym = ("call", "sympy.Symbol", (_avg.C("t"),), ())
-        odec = [c for c in _avg.find_all(mv_, "call") if c[1].split(".")[-1] == "ODE"]
-        okt = bool(odec) and dict(odec[0][3]).get("t") == tsym
-        ctx.check(okt and extra.get("t") == tsym and extra.get("time") == tsym, "R01.g", mo.key("aliases"), "symbols['t'] = symbols['time'] = Symbol('t')", f"make_ode binds the time aliases as {{{', '.join(k + ': ' + _avg.show(x) for k, x in extra.items())}}} (the model's t is {_avg.show(dict(odec[0][3]).get('t')) if odec and dict(odec[0][3]).get('t') else None})", mo.where())
-    mv = sm.func("ode.py", "ODE.missing_variables")
-    mvv = util.value_of(ctx, mv)
-    if _avg.has_unk(mvv):
-        ctx.undecided("R01.g", mv.key("t-is-known"), "ODE.missing_variables is not understood", mv.where())
-    else:
-        tests = [c for c in _avg.find_all(mvv, "cmp") if c[1] in ("!=", "not in", "==", "in") and (c[3] == _avg.C("t") or c[2] == _avg.C("t"))]
-        ctx.check(bool(tests), "R01.g", mv.key("t-is-known"), "`t` is never a missing variable", "ODE.missing_variables does not treat `t` as a known symbol", mv.where())
-    pa = sm.func("codegen/python.py", "PythonCodeGenerator._rhs_arguments")
-    from .c04 import func_tuple as _ftg
-
-    kwg, vg = _ftg(ctx, pa)
-    entg = {}
-    if kwg and kwg.get("arguments") is not None:
-        for cp_ in _avg.find_all(kwg["arguments"], "comp"):
-            for it_ in cp_[3]:
-                if it_[0] == "sub" and it_[1][0] == "dict":
-                    entg = {k_[1]: x_ for k_, x_ in it_[1][1] if k_[0] == "c"}
-    if not entg:
-        ctx.undecided("R01.g", pa.key("formal-t"), "the formal argument table is not understood", pa.where())
-    else:
-        ctx.check(entg.get("t") == _avg.C("t"), "R01.g", pa.key("formal-t"), "formal time argument is `t`", f"the formal time argument is {_avg.show(entg.get('t')) if entg.get('t') else None}", pa.where())
+    time_aliases(ctx, "R01.g")
 
     # ---- R01.h printer coverage -----------------------------------------------------------------------------
     ctx.rule("R01.h", "NumPy printer coverage: every producible class resolves to a vetted correct method or to a gotranx method with the right numpy function and operand structure", floor=40)
@@ -715,3 +679,46 @@ def assembly(ctx: Ctx, rule: str):
         names = [i[2] if i[0] == "mcall" else None for i in (seq[1] if seq[0] == "list" else ())]
         okg = bool(names) and names[0] == "imports" and {"state_index", "parameter_index", "initial_state_values", "initial_parameter_values", "rhs", "monitor_values"} <= {n_ for n_ in names if n_}
         ctx.check(okg, rule, gc.key("module-parts"), "imports first; index, init, rhs and monitor functions are all emitted", f"gotran2py.get_code assembles {names}: not imports first followed by the index, init, rhs and monitor functions", gc.where())
+
+
+def time_aliases(ctx: Ctx, rule: str):
+    """`t` and `time` are bound to the one time symbol when a model is made, `t` is never a missing variable, and the
+    formal time argument of the generated functions is `t`."""
+    sm = ctx.sm
+    from sa import av as _avg
+
+    from . import odemodel as _om
+
+    mo = sm.func("ode.py", "make_ode")
+    mv_, _e = _om.construction(ctx, "make_ode")
+    rc = _om.resolve_call(mv_)
+    if rc is None:
+        ctx.undecided(rule, mo.key("aliases"), "make_ode is not understood", mo.where())
+    else:
+        passed = dict(rc[3]).get("symbols", rc[2][1] if len(rc[2]) > 1 else None)
+        _base, extra = _om.setitem_chain(passed) if passed is not None else (None, {})
+        tsym = ("call", "sympy.Symbol", (_avg.C("t"),), ())
+        odec = [c for c in _avg.find_all(mv_, "call") if c[1].split(".")[-1] == "ODE"]
+        okt = bool(odec) and dict(odec[0][3]).get("t") == tsym
+        ctx.check(okt and extra.get("t") == tsym and extra.get("time") == tsym, rule, mo.key("aliases"), "symbols['t'] = symbols['time'] = Symbol('t')", f"make_ode binds the time aliases as {{{', '.join(k + ': ' + _avg.show(x) for k, x in extra.items())}}} (the model's t is {_avg.show(dict(odec[0][3]).get('t')) if odec and dict(odec[0][3]).get('t') else None})", mo.where())
+    mv = sm.func("ode.py", "ODE.missing_variables")
+    mvv = util.value_of(ctx, mv)
+    if _avg.has_unk(mvv):
+        ctx.undecided(rule, mv.key("t-is-known"), "ODE.missing_variables is not understood", mv.where())
+    else:
+        tests = [c for c in _avg.find_all(mvv, "cmp") if c[1] in ("!=", "not in", "==", "in") and (c[3] == _avg.C("t") or c[2] == _avg.C("t"))]
+        ctx.check(bool(tests), rule, mv.key("t-is-known"), "`t` is never a missing variable", "ODE.missing_variables does not treat `t` as a known symbol", mv.where())
+    pa = sm.func("codegen/python.py", "PythonCodeGenerator._rhs_arguments")
+    from .c04 import func_tuple as _ftg
+
+    kwg, vg = _ftg(ctx, pa)
+    entg = {}
+    if kwg and kwg.get("arguments") is not None:
+        for cp_ in _avg.find_all(kwg["arguments"], "comp"):
+            for it_ in cp_[3]:
+                if it_[0] == "sub" and it_[1][0] == "dict":
+                    entg = {k_[1]: x_ for k_, x_ in it_[1][1] if k_[0] == "c"}
+    if not entg:
+        ctx.undecided(rule, pa.key("formal-t"), "the formal argument table is not understood", pa.where())
+    else:
+        ctx.check(entg.get("t") == _avg.C("t"), rule, pa.key("formal-t"), "formal time argument is `t`", f"the formal time argument is {_avg.show(entg.get('t')) if entg.get('t') else None}", pa.where())
